@@ -164,6 +164,43 @@ def run(rep: common.Report, tier: str, seed: int):
             out.append((best[0], best[1], rz))
         add('plot2d', d, pts, out, Fraction(1, 10 ** 9))
 
+    # call site: the traces NasuWriter draws (plot2d / plot3d) - every adjacent pass is the path displaced by a multiple of the
+    # scan shift *before* the transformation, so the displacement is mirrored / rotated / scaled with the path
+    for k in range(24 if quick else 240):
+        from femto.device import Device
+        from femto.waveguide import NasuWaveguide
+        d = gen_tcfg(rng)
+        param, calls = builders.gen_wg_calls(rng, max_ops=2)
+        param['cmd_rate_max'] = 20
+        param['adj_scan'] = rng.choice([2, 3, 4, 5])
+        param['adj_scan_shift'] = rng.choice([(0.0, 0.2, 0.0), (0.15, 0.1, 0.0), (0.1, -0.2, 0.05), (0.0, 0.0004, 0.0)])
+        nwg = builders.build_wg(param, calls, cls=NasuWaveguide)
+        three_d = k % 2 == 1
+        with pgm.quiet():
+            dev = Device(filename='d.pgm', **d)
+            dev.append(nwg)
+            (dev.plot3d if three_d else dev.plot2d)(show=False)
+        drawn = []
+        for tr in dev.fig.data:
+            if tr.x is not None and len(tr.x) and tr.mode == 'lines':
+                zs = tr.z if three_d else [0.0] * len(tr.x)
+                drawn.extend((float(a), float(b), float(c)) for a, b, c in zip(tr.x, tr.y, zs))
+        drawn = sorted(set(drawn))
+        P = np.asarray(nwg.points, dtype=np.float64)
+        sh = np.array(list(param['adj_scan_shift']) + [0.0, 0.0], dtype=np.float64).reshape(-1, 1)
+        pts, out = [], []
+        with pgm.quiet():
+            G0 = pgm.make_compiler(d)
+        for m in nwg.adj_scan_order:
+            Q = P + m * sh
+            ref = np.asarray(G0.transform_points(Q[0].copy(), Q[1].copy(), Q[2].copy())).T
+            for q, (rx, ry, rz) in zip(Q.T, ref):
+                best = min(drawn, key=lambda t: (t[0] - rx) ** 2 + (t[1] - ry) ** 2 + ((t[2] - rz) ** 2 if three_d else 0.0)) if drawn \
+                    else (float('nan'),) * 3
+                pts.append((float(q[0]), float(q[1]), float(q[2])))
+                out.append((best[0], best[1], best[2] if three_d else float(rz)))
+        add('nasu_plot3d' if three_d else 'nasu_plot2d', d, pts, out, Fraction(1, 10 ** 9), {'shape': 'float64'})
+
     fails = common.run_model('C02', 'Harness.C02', 'C02.case', 'C02.failing', lits, shard=60, extra_imports=IMPORTS)
     for idx, code in fails:
         c = cases[idx]
